@@ -52,7 +52,10 @@ fn opts(rec: &Rec<'_>) -> AuthOpts {
 }
 
 fn gen(t: &mut Tape, rec: &mut Rec<'_>) -> Option<AuthCase> {
-    match scase::gen_auth_case(t, &opts(rec)) {
+    crate::gen::s::LEVEL_FRIENDLY.with(|c| c.set(true));
+    let r = scase::gen_auth_case(t, &opts(rec));
+    crate::gen::s::LEVEL_FRIENDLY.with(|c| c.set(false));
+    match r {
         Ok(c) => Some(c),
         Err(e) => {
             let reason = e.split(':').next().unwrap_or("discard").to_string();
@@ -73,7 +76,9 @@ fn full_world(c: &AuthCase) -> World {
 }
 
 fn level_case(t: &mut Tape, rec: &mut Rec<'_>) {
+    crate::gen::s::COMPOUND_DEPTHS_DIFFER.with(|c| c.set(false));
     let Some(c) = gen(t, rec) else { return };
+    rec.label_if(crate::gen::s::COMPOUND_DEPTHS_DIFFER.with(|c| c.get()), "deref-of-if-with-branches-of-different-depth");
     let validator = Validator::new(c.schema.clone());
     let auth = Authorizer::new();
     let ident = |s: &str| s.to_string();
